@@ -348,6 +348,23 @@ Proof.
     destruct (s_extra g) as [| |[|v L]]; try (exfalso; apply Hc; exact I). cbn [is_nil]. rewrite andb_false_r. reflexivity.
 Qed.
 
+Lemma build_sel_len pe k g l k' p w x : build pe k g l = OSel k' p w x -> length p = length w.
+Proof.
+  unfold build. intros H.
+  repeat match type of H with
+  | context [match ?e with _ => _ end] => destruct e eqn:?; try discriminate H
+  end; injection H as <- <- <- <-; rewrite !map_length; reflexivity.
+Qed.
+
+Lemma getitem_sel_len cfg k g ix k' p w x : getitem cfg k g ix = OSel k' p w x -> length p = length w.
+Proof.
+  unfold getitem. destruct (select _ _ ix); try discriminate; try apply build_sel_len.
+  destruct k; discriminate.
+Qed.
+
+Lemma getitem_atom_err cfg g ix : exists e, getitem cfg CAtom g ix = OErr e.
+Proof. unfold getitem. destruct (select _ _ ix); cbn [build]; eauto. Qed.
+
 (* ------------------------------------------------------------------ the machine *)
 Section Machine.
   Variable bq : list point -> point -> Z -> list nat.
@@ -393,7 +410,7 @@ Section Machine.
 
   Lemma step_inv_len k g o : inv_len g -> inv_len (snd (step k g o)).
   Proof.
-    intros [H1 H2]. destruct o as [fl v|v|c r|ix]; cbn [C10_model.step].
+    intros [H1 H2]. destruct o as [fl v|v|c r|ix|ix]; cbn [C10_model.step].
     - assert (Hgen : forall g', g' = (if shape_ok g fl v
                then (ODone, mkst v (s_wts g) (s_flat g) (s_dim g) (s_centre g) (s_extra g)
                      (if tree_reset cfg then match s_tree g with TUnset => TUnset | _ => TNone end else s_tree g))
@@ -411,6 +428,8 @@ Section Machine.
       split; cbn [set_tree s_pts s_wts s_tree]; [exact H1|].
       intros snap [= <-]. apply read_pts_length.
     - cbn [snd]. split; assumption.
+    - destruct (getitem cfg k g ix) as [e| |c l|k' p w x] eqn:E; cbn [snd]; try (split; assumption).
+      split; cbn [s_pts s_wts s_tree]; [exact (getitem_sel_len _ _ _ _ _ _ _ _ E) | discriminate].
   Qed.
 
   Lemma read_pts_weights k g v t :
@@ -420,7 +439,7 @@ Section Machine.
   Lemma step_inv_fresh k g o :
     tree_reset cfg = true \/ is_setpoints o = false -> inv_fresh k g -> inv_fresh k (snd (step k g o)).
   Proof.
-    intros Hc Hf. destruct o as [fl v|v|c r|ix]; cbn [C10_model.step].
+    intros Hc Hf. destruct o as [fl v|v|c r|ix|ix]; cbn [C10_model.step].
     - destruct Hc as [Hc|Hc]; [|discriminate]. rewrite Hc.
       destruct k; cbn [snd]; try exact Hf;
         (destruct (shape_ok g fl v); cbn [snd]; [|exact Hf];
@@ -430,28 +449,30 @@ Section Machine.
     - destruct (query_state k g c r) as [->|[Ht ->]]; [exact Hf|].
       intros snap [= <-]. unfold set_tree. symmetry. apply read_pts_weights.
     - exact Hf.
+    - destruct (getitem cfg k g ix) as [e| |c l|k' p w x]; cbn [snd]; try exact Hf.
+      intros snap Hsn. discriminate Hsn.
   Qed.
 
   Lemma step_tree_set k g o : s_tree g <> TUnset -> s_tree (snd (step k g o)) <> TUnset.
   Proof.
-    intros Ht. destruct o as [fl v|v|c r|ix]; cbn [C10_model.step].
+    intros Ht. destruct o as [fl v|v|c r|ix|ix]; cbn [C10_model.step].
     - destruct k; cbn [snd]; try exact Ht;
         (destruct (shape_ok g fl v); cbn [snd s_tree]; [|exact Ht];
          destruct (tree_reset cfg); [destruct (s_tree g); congruence | exact Ht]).
     - destruct (length v =? length (s_wts g))%nat; exact Ht.
     - destruct (query_state k g c r) as [->|[_ ->]]; [exact Ht | discriminate].
     - exact Ht.
+    - destruct (getitem cfg k g ix) as [e| |c l|k' p w x]; cbn [snd s_tree]; try exact Ht. discriminate.
   Qed.
 
-  Lemma step_tree_unset k g o : s_tree g = TUnset -> s_tree (snd (step k g o)) = TUnset.
+  Lemma step_tree_unset g o : s_tree g = TUnset -> s_tree (snd (step CAtom g o)) = TUnset.
   Proof.
-    intros Ht. destruct o as [fl v|v|c r|ix]; cbn [C10_model.step].
-    - destruct k; cbn [snd]; try exact Ht;
-        (destruct (shape_ok g fl v); cbn [snd s_tree]; [|exact Ht];
-         rewrite Ht; destruct (tree_reset cfg); reflexivity).
-    - destruct (length v =? length (s_wts g))%nat; exact Ht.
-    - destruct (query_state k g c r) as [->|[Hn _]]; [exact Ht | congruence].
+    intros Ht. destruct o as [fl v|v|c r|ix|ix]; cbn [C10_model.step].
     - exact Ht.
+    - destruct (length v =? length (s_wts g))%nat; exact Ht.
+    - destruct (query_state CAtom g c r) as [->|[Hn _]]; [exact Ht | congruence].
+    - exact Ht.
+    - destruct (getitem_atom_err cfg g ix) as [e ->]. exact Ht.
   Qed.
 
   Lemma exec_inv_len k ops : forall g, inv_len g -> inv_len (exec k g ops).
@@ -472,7 +493,7 @@ Section Machine.
   Lemma exec_tree_set k ops : forall g, s_tree g <> TUnset -> s_tree (exec k g ops) <> TUnset.
   Proof. induction ops as [|o ops IH]; intros g H; cbn [C10_model.exec]; [exact H|]. apply IH, step_tree_set, H. Qed.
 
-  Lemma exec_tree_unset k ops : forall g, s_tree g = TUnset -> s_tree (exec k g ops) = TUnset.
+  Lemma exec_tree_unset ops : forall g, s_tree g = TUnset -> s_tree (exec CAtom g ops) = TUnset.
   Proof. induction ops as [|o ops IH]; intros g H; cbn [C10_model.exec]; [exact H|]. apply IH, step_tree_unset, H. Qed.
 
   Lemma init_inv_len k flat dim pub w c0 x : length pub = length w -> inv_len (init k flat dim pub w c0 x).
@@ -767,3 +788,11 @@ Proof. reflexivity. Qed.
 Example ex_periodic_empty_refuted :=
   periodic_empty_refuted_lemma pinned (init pinned CPeriodic false 2 [[0;0];[1;0]] [1;2] [] (XLattice []))
     (IMask [false; false]) eq_refl (or_introl eq_refl).
+
+(* a history that descends into a selection: the selected grid answers from its own points, whatever the parent's tree *)
+Example ex_enter :
+  run ball_ref fixed CGrid (init fixed CGrid false 1 [[0];[5];[7]] [1;2;3] [] XNone)
+      [Query (CVec [0]) (RFin 0); Enter (ISlice (Some 1) None None); Query (CVec [5]) (RFin 0); Query (CVec [0]) (RFin 30)]
+  = [OLocal (CVec [0]) [(0%nat,[0],1)]; OSel CGrid [[5];[7]] [2;3] XNone;
+     OLocal (CVec [5]) [(0%nat,[5],2)]; OLocal (CVec [0]) [(0%nat,[5],2)]].
+Proof. vm_compute. reflexivity. Qed.
